@@ -798,12 +798,25 @@ type curveSpec struct {
 	hasIso  bool
 }
 
+// bigZ renders a non-negative integer as little-endian 64-bit limbs (the extracted OCaml of a plain
+// 381-bit literal nests one closure per bit, which overflows ocamlopt's stack after ~150 constants)
+func bigZ(v *big.Int) string {
+	if v.BitLen() <= 30 {
+		return "0x" + v.Text(16)
+	}
+	var ds []string
+	for _, c := range v.Text(16) {
+		ds = append(ds, "h"+string(c))
+	}
+	return "z_of_hex [" + strings.Join(ds, ";") + "]"
+}
+
 func hexToZ(h string) (string, error) {
 	v, ok := new(big.Int).SetString(h, 16)
 	if !ok {
 		return "", fmt.Errorf("bad hex %q", h)
 	}
-	return "0x" + v.Text(16), nil
+	return bigZ(v), nil
 }
 
 func leBytesToN(elts []ast.Expr) (string, error) {
@@ -820,7 +833,7 @@ func leBytesToN(elts []ast.Expr) (string, error) {
 		v.Lsh(v, 8)
 		v.Or(v, new(big.Int).SetUint64(b))
 	}
-	return "0x" + v.Text(16), nil
+	return "Z.to_N (" + bigZ(v) + ")", nil
 }
 
 func leLimbsToZ(elts []ast.Expr) (string, error) {
@@ -837,7 +850,7 @@ func leLimbsToZ(elts []ast.Expr) (string, error) {
 		v.Lsh(v, 64)
 		v.Or(v, new(big.Int).SetUint64(b))
 	}
-	return "0x" + v.Text(16), nil
+	return bigZ(v), nil
 }
 
 // package-level `name = [...]uint8{..}` / `[...]uint64{..}` arrays
@@ -1229,6 +1242,10 @@ func genMappers(repo string) (string, map[string]string, error) {
 		"   One `let` per source statement; names are <destination>_<write number>;\n" +
 		"   Select(c, z, nz) = if c then nz else z;  Pow(r, x, e) = fpow x (little-endian value of e). *)\n")
 	out.WriteString("From Coq Require Import Bool List ZArith NArith.\nImport ListNotations.\nRequire Import V.base.Bytes V.base.Fld.\n\n")
+	out.WriteString("(* big constants as lists of hexadecimal digits, most significant first: a plain 381-bit numeral\n   extracts to one OCaml closure per 1-bit, and ocamlopt overflows its stack on ~100 of them *)\n" +
+		"Inductive hexd := h0|h1|h2|h3|h4|h5|h6|h7|h8|h9|ha|hb|hc|hd|he|hf.\n" +
+		"Definition hexd_val (d : hexd) : Z :=\n  match d with h0=>0|h1=>1|h2=>2|h3=>3|h4=>4|h5=>5|h6=>6|h7=>7|h8=>8|h9=>9|ha=>10|hb=>11|hc=>12|hd=>13|he=>14|hf=>15 end%Z.\n" +
+		"Definition z_of_hex (l : list hexd) : Z := fold_left (fun acc d => (acc * 16 + hexd_val d)%Z) l 0%Z.\n\n")
 	out.WriteString("Definition fpow {F : Type} (K : fops F) (x : F) (e : N) : F :=\n  match e with N0 => f1 K | Npos p => Pos.iter_op (fmul K) p x end.\n\n")
 	out.WriteString("(* polyEval (isogeny.go): result = c[n-1]; for i = n-2 .. 0: result = result*at + c[i] *)\n" +
 		"Definition poly_eval {F : Type} (K : fops F) (coefficients : list F) (at_ : F) : F :=\n" +
